@@ -9,6 +9,8 @@ NOTE = ("trusted: Lean 4.33 kernel; axioms propext/Classical.choice/Quot.sound o
 TECH = "Lean 4 theorems over a model tied to the source by regenerated fact tables and by differential correspondence (impl vs compiled Lean model)"
 # id -> (claimed?, level text, design ref, reason if not claimed)
 CLAIMS = {
+ "C05": ("theorems: Sync invariant (statuses, removing / reactivating queues, consensus set), sync_step (every operation inside the hypotheses preserves it), sync_block (after ANY sequence of such operations in a block the returned updates are applicable - no removal of an absent key, no key twice - and the new consensus set is exactly the active set), sync_after_drain (blocks compose); the operations the hypotheses exclude are exactly the recorded findings, each with a closed counterexample evaluated on the list-level model that includes CometBFT's UpdateWithChangeSet rules. Correspondence: real blocks through ABCI (BeginBlock signature handling, owner messages as signed transactions, keeper-level jail / unjail proposal / rank reset / keeper Pause) with every update list applied to a real CometBFT ValidatorSet, vs the Lean model (statuses, ranks, streaks, mischance counters, both queues, update lists, applicability verdict, consensus set compared after every block)", "section 5 C05"),
+ "C15": ("theorems for every state: transitions (each operation changes only its target and only along its edge: pause A->P, unpause P->A, activate I->A not before inactive-until, downtime A->I only past max mischance, jail ->J, unjail J->I within the unjail window), evidence_jails, downtime_inactivates, signer_never_punished, rank_streak_nonneg (using exact LegacyDec rounding), leaves_jail_only_by; the two edges of the code that contradict the property are findings with closed witnesses. Correspondence: shared with C05 (same real-block harness; per-operation status edges observed on the implementation)", "section 5 C15"),
  "C13": ("theorems: inflation_bound (supply after AllocateTokens <= max(supply, snapshot + floor(snapshot*rate*dt/period) + 1), all inputs, from exact LegacyDec rounding lemmas), annual_gate + gate_closed_iff, ubi_hardcap_partial / ubi_hardcap_counterexample (real uint64 arithmetic: the hard-cap test is exact without wrap-around and FALSE with it - recorded finding), ubi_once_per_period, supply_tracks_mints, supply_le_cap, owner_cannot_raise_cap, mint_burn_sites (regenerated table of every MintCoins/BurnCoins call site). Correspondence: the real distributor keeper, UBI proposal handler and EndBlocker, tokens keeper and msg server vs the Lean functions on boundary-heavy inputs", "section 5 C13"),
  "C08": ("theorems: tally_exact (the float32 ProcessResult equals the exact rule yes*2>votes / veto*2>=veto-capable / others*2>=votes for EVERY vote vector with at most 2^24 votes and voters — proved from an executable IEEE-754 round-to-nearest-even model, not sampled) and tally_inexact_beyond (the bound is tight); over ALL histories of submit / vote / end-of-block (invariant + induction): applied_at_most_once, applied_only_if_passed (quorum and passed tally at a tally performed after voting end and min height), applied_after_delay, late_vote_rejected, vote_requires_permission_now, revote_replaces, final_result_stable. Correspondence: ProcessResult and IsQuorum as pure functions (exhaustive small vectors, random large ones, decimal boundaries) and lifecycle histories with deadlines straddled by +-1 s on the real gov msg server and EndBlocker vs the Lean model (proposal records, both queues, votes, applied set compared after every step)", "section 5 C08"),
  "C07": ("theorems: check_iff_rule / checkAllowed_iff_rule (the four-pass permission map equals 'whitelisted directly or via a role and blacklisted nowhere', all configurations, no size bound); inv_step / inv_reach (the three secondary indexes equal the records after every sequence of the 11 edit operations, by induction); voters_exact (the index walk used for quorum = exactly the actors whose own or role whitelist carries the permission); gated_only_holders; gate table of every msg-server method and proposal content regenerated from source and compared (rfl) with the expectation. Correspondence: random edit histories + exhaustive small scope + gated messages on the real keeper vs the Lean model, with records, raw index dumps, voter sets and checks compared line by line", "section 5 C07"),
